@@ -121,7 +121,7 @@ func (in *Interp) mineBounds() *boundsInfo {
 		return math.MaxInt64
 	}
 	setLo := func(t *Term, v int64) bool {
-		if t.Op != OpVar || t.W != 64 {
+		if t.Op != OpVar || t.W == 0 {
 			return false
 		}
 		if v > getLo(t) {
@@ -131,7 +131,7 @@ func (in *Interp) mineBounds() *boundsInfo {
 		return false
 	}
 	setHi := func(t *Term, v int64) bool {
-		if t.Op != OpVar || t.W != 64 {
+		if t.Op != OpVar || t.W == 0 {
 			return false
 		}
 		if v < getHi(t) {
@@ -175,7 +175,7 @@ func (in *Interp) mineBounds() *boundsInfo {
 			switch t.Op {
 			case OpSLT:
 				a, b := t.Args[0], t.Args[1]
-				if a.W != 64 {
+				if a.W == 0 {
 					continue
 				}
 				if pos { // a < b
@@ -202,7 +202,7 @@ func (in *Interp) mineBounds() *boundsInfo {
 					}
 				}
 			case OpEq:
-				if !pos || t.Args[0].W != 64 {
+				if !pos || t.Args[0].W == 0 {
 					continue
 				}
 				a, b := t.Args[0], t.Args[1]
@@ -289,6 +289,16 @@ func (in *Interp) interval1(b *boundsInfo, t *Term) ival {
 		switch t.Op {
 		case OpConst:
 			return ival{t.SVal(), t.SVal(), true}
+		case OpVar:
+			// narrow variables are read as signed numbers; their range atoms are in the path condition
+			lo, hi := -half, half-1
+			if v, ok := b.lo[t.ID]; ok && v > lo {
+				lo = v
+			}
+			if v, ok := b.hi[t.ID]; ok && v < hi {
+				hi = v
+			}
+			return ival{lo, hi, true}
 		case OpExtract:
 			if t.B != 0 {
 				return bad
